@@ -27,6 +27,13 @@ func DetectDeviceConfigChanges(ctx context.Context) <-chan bool {
 			}
 		}()
 
+		go func() {
+			// the watcher stops delivering events for good when nobody takes its errors (e.g. a kernel queue overflow)
+			for err := range watcher.Errors {
+				log.Info(fmt.Sprintf("config watcher error: %v", err), logger.Warning)
+			}
+		}()
+
 		for _, path := range []string{
 			factoryGamepad,
 			factoryKeyboard,
